@@ -257,14 +257,33 @@ func (p *Posix) doesBucketAndObjectExist(bucket, object string) error {
 		return fmt.Errorf("stat bucket: %w", err)
 	}
 
-	_, err = os.Stat(filepath.Join(bucket, object))
+	fi, err := os.Stat(filepath.Join(bucket, object))
 	if errors.Is(err, fs.ErrNotExist) || errors.Is(err, syscall.ENOTDIR) {
 		return s3err.GetAPIError(s3err.ErrNoSuchKey)
 	}
 	if err != nil {
 		return fmt.Errorf("stat object: %w", err)
 	}
+	// "key/" names a directory object and "key" a file object: the path
+	// join above drops the distinction, the objects are different ones
+	if strings.HasSuffix(object, "/") != fi.IsDir() {
+		return s3err.GetAPIError(s3err.ErrNoSuchKey)
+	}
 
+	return nil
+}
+
+// keyNamesThisKind reports ErrNoSuchKey when the object the key resolves to
+// exists but is of the other kind (a file for "key/", a directory for "key")
+func (p *Posix) keyNamesThisKind(bucket, object string) error {
+	if object == "" || strings.HasPrefix(object, metaTmpDir+"/") {
+		// the bucket itself, or the gateway's own upload directories
+		return nil
+	}
+	fi, err := os.Stat(filepath.Join(bucket, object))
+	if err == nil && strings.HasSuffix(object, "/") != fi.IsDir() {
+		return s3err.GetAPIError(s3err.ErrNoSuchKey)
+	}
 	return nil
 }
 
@@ -2630,6 +2649,7 @@ func (p *Posix) UploadPartCopy(ctx context.Context, upi *s3.UploadPartCopyInput)
 	if err != nil {
 		return s3response.CopyPartResult{}, err
 	}
+	srcKeyIsDir := strings.HasSuffix(srcObject, "/")
 
 	_, err = os.Stat(srcBucket)
 	if errors.Is(err, fs.ErrNotExist) {
@@ -2681,6 +2701,11 @@ func (p *Posix) UploadPartCopy(ctx context.Context, upi *s3.UploadPartCopyInput)
 	}
 	if err != nil {
 		return s3response.CopyPartResult{}, fmt.Errorf("stat object: %w", err)
+	}
+	// the source key names a file object or ("key/") a directory object,
+	// not whatever the joined path resolves to
+	if srcKeyIsDir != fi.IsDir() {
+		return s3response.CopyPartResult{}, s3err.GetAPIError(s3err.ErrNoSuchKey)
 	}
 
 	if p.versioningEnabled() {
@@ -4784,6 +4809,9 @@ func (p *Posix) GetObjectTagging(_ context.Context, bucket, object string) (map[
 }
 
 func (p *Posix) getAttrTags(bucket, object string) (map[string]string, error) {
+	if err := p.keyNamesThisKind(bucket, object); err != nil {
+		return nil, err
+	}
 	tags := make(map[string]string)
 	b, err := p.meta.RetrieveAttribute(nil, bucket, object, tagHdr)
 	if errors.Is(err, fs.ErrNotExist) || errors.Is(err, syscall.ENOTDIR) {
@@ -4811,6 +4839,10 @@ func (p *Posix) PutObjectTagging(_ context.Context, bucket, object string, tags 
 	}
 	if err != nil {
 		return fmt.Errorf("stat bucket: %w", err)
+	}
+
+	if err := p.keyNamesThisKind(bucket, object); err != nil {
+		return err
 	}
 
 	if tags == nil {
